@@ -15,14 +15,16 @@ Traces == ndJsonDeserialize(IOEnv.TRACE_FILE)
 VARIABLES tid, l, rej, viol,
           gq,     \* ghost: the queue of one-shot tasks as the CALLS alone determine it (time, then order of installation);
                   \* never bound to anything the implementation logs about its heap
-          gdue    \* ghost: the time of each one-shot task's last installation (what resume_task re-installs at)
-tvars == <<tid, l, rej, viol, gq, gdue>>
+          gdue,   \* ghost: the time of each one-shot task's last installation (what resume_task re-installs at)
+          goff    \* ghost: the offset each recurring task was last installed with, according to the calls
+tvars == <<tid, l, rej, viol, gq, gdue, goff>>
 T == Traces[tid].evs
 ToSet(s) == {s[i] : i \in 1..Len(s)}
 
 TInit ==
     /\ tid \in 1..Len(Traces) /\ l = 1 /\ rej = 0 /\ viol = {}
-    /\ gq = <<>> /\ gdue = [k \in K |-> NONE]
+    /\ gq = <<>> /\ gdue = [k \in K |-> NONE] /\ goff = [k \in K |-> IF k \in Rec THEN Offset[k] ELSE 0]
+    /\ off = [k \in K |-> IF k \in Rec THEN Offset[k] ELSE 0]
     /\ now = 0 /\ q = <<>> /\ sched = [k \in K |-> FALSE] /\ due = [k \in K |-> NONE]
     /\ instAt = [k \in K |-> NONE]
     /\ defq = <<>> /\ out = <<>> /\ called = <<>> /\ submitted = <<>> /\ calledLog = <<>>
@@ -34,6 +36,7 @@ Act(e) ==
     CASE e.op = "at"      -> IF mgr THEN InstallAt(e.k, e.a) ELSE EarlyAt(e.k, e.a)
       [] e.op = "after"   -> InstallAfter(e.k, e.a)
       [] e.op = "rec"     -> IF mgr THEN InstallRec(e.k) ELSE EarlyRec(e.k)
+      [] e.op = "reoff"   -> InstallRecOff(e.k, e.a)
       [] e.op = "start"   -> Start
       [] e.op = "suspend" -> IF mgr THEN Suspend(e.k) ELSE EarlySuspend(e.k)
       [] e.op = "resume"  -> Resume(e.k)
@@ -49,7 +52,7 @@ Bind(e) ==
     /\ calledLog' = calledLog \o e.st.called
     /\ act' = [op |-> e.op, k |-> e.k, a |-> e.a]
     /\ UNCHANGED <<TaskRaises, FnRaises>>
-    /\ mgr' = e.st.mgr /\ early' = e.st.early
+    /\ mgr' = e.st.mgr /\ early' = e.st.early /\ off' = e.st.off
 
 A_FiresOnlyScheduled == \A i \in 1..Len(out') : sched[out'[i][1]] \/ out'[i][1] \in Rec
 A_FifoAmongEquals ==
@@ -79,14 +82,16 @@ Walk(g, o, i, n) ==
               ELSE LET g1 == Tail(g)
                        \* (a recurring task that raises is not re-armed: TaskManager.process_task re-installs it after
                        \*  the task's own process_task has returned)
-                       g2 == IF k \in Rec /\ k \notin TaskRaises THEN Insert(g1, NextSlot(n, Interval[k], Offset[k]), k) ELSE g1
+                       g2 == IF k \in Rec /\ k \notin TaskRaises THEN Insert(g1, NextSlot(n, Interval[k], goff[k]), k) ELSE g1
                        g3 == IF k \in TaskRaises THEN g2 ELSE GEffect(g2, k, n)
                    IN  Walk(g3, o, i + 1, n)
 GWalk(e) == Walk(gq, e.st.out, 1, e.st.now)
 GhostNext(e) ==
     CASE e.op = "at"      -> /\ gq' = Insert(Remove(gq, e.k), e.a, e.k) /\ gdue' = [gdue EXCEPT ![e.k] = e.a]
       [] e.op = "after"   -> /\ gq' = Insert(Remove(gq, e.k), now + e.a, e.k) /\ gdue' = [gdue EXCEPT ![e.k] = now + e.a]
-      [] e.op = "rec"     -> LET t == NextSlot(now, Interval[e.k], Offset[e.k]) IN
+      [] e.op = "rec"     -> LET t == NextSlot(now, Interval[e.k], goff[e.k]) IN
+                             /\ gq' = Insert(Remove(gq, e.k), t, e.k) /\ gdue' = [gdue EXCEPT ![e.k] = t]
+      [] e.op = "reoff"   -> LET t == NextSlot(now, Interval[e.k], e.a) IN
                              /\ gq' = Insert(Remove(gq, e.k), t, e.k) /\ gdue' = [gdue EXCEPT ![e.k] = t]
       [] e.op = "suspend" -> gq' = Remove(gq, e.k) /\ UNCHANGED gdue
       [] e.op = "resume" /\ gdue[e.k] # NONE
@@ -98,7 +103,7 @@ GhostNext(e) ==
                              \* (after a failed walk the ghost follows the implementation's word on what fired)
                              /\ gq' = IF w.why = "" THEN w.g ELSE SelectSeq(gq, LAMBDA x : x[2] \notin Fired(e))
                              /\ gdue' = [j \in K |-> IF movers(j) # {} THEN n + TaskDoes[CHOOSE k \in movers(j) : TRUE][3]
-                                                      ELSE IF j \in Rec /\ j \in Fired(e) \ TaskRaises THEN NextSlot(n, Interval[j], Offset[j])
+                                                      ELSE IF j \in Rec /\ j \in Fired(e) \ TaskRaises THEN NextSlot(n, Interval[j], goff[j])
                                                       ELSE gdue[j]]
       [] OTHER            -> UNCHANGED <<gq, gdue>>
 \* unless something raised, nothing the calls made due is left behind by a pass
@@ -132,12 +137,13 @@ Step ==
         /\ rej' = IF rej = 0 /\ ~ENABLED (Act(e) /\ Bind(e)) THEN l ELSE rej
         /\ viol' = viol \cup {<<m, l>> : m \in {x \in Failing \cup GhostFailing(e) : \A v \in viol : v[1] # x}}   \* first failing step per monitor
         /\ GhostNext(e)
+        /\ goff' = IF e.op = "reoff" THEN [goff EXCEPT ![e.k] = e.a] ELSE goff
     /\ l' = l + 1 /\ UNCHANGED tid
 
 Done ==
     /\ l = Len(T) + 1
     /\ PrintT(<<"@@", [tid |-> Traces[tid].tid, rej |-> rej, viol |-> viol]>>)
-    /\ l' = l + 1 /\ UNCHANGED <<vars, tid, rej, viol, gq, gdue>>
+    /\ l' = l + 1 /\ UNCHANGED <<vars, tid, rej, viol, gq, gdue, goff>>
 
 TNext == Step \/ Done
 TSpec == TInit /\ [][TNext]_<<vars, tvars>>
